@@ -113,7 +113,8 @@ def _random_scenarios(pid, rng, n, *, costs=False, findings=False) -> List[Dict[
                                   kernels=(1, 2, 3, 4, 5, 7, 9))
         if not any(nd["op"] in ("conv", "lin") and not nd["excl"] for nd in arch["nodes"]):
             continue
-        m = pitgen.random_masks(rng, arch, p_prune=rng.choice([0.2, 0.5, 0.8]))
+        # (time masks on explicitly, symmetrically padded layers: outside C01's domain, inside that of the others)
+        m = pitgen.random_masks(rng, arch, p_prune=rng.choice([0.2, 0.5, 0.8]), noncausal_time=(pid != "C01"))
         sc = {"arch": arch, "fold": rng.random() < 0.4, "seed": rng.randrange(10 ** 6), "alive": m["alive"], "tm": m["tm"],
               "props": _props(pid), "src": "random"}
         if costs:
@@ -278,37 +279,20 @@ def run_family(pid: str, tier: str, seed: int, replay=None) -> int:
             for sc in vs:
                 sc["src"] = "tlc-values"
             scs += vs
-            # padding='same' layers (the README's other layout): equal while no tap is pruned (ExportEquivalentSameOpen);
-            # with a pruned tap the design config below fails and the replay reproduces it (finding F67)
+            # non-causal layouts (padding='same'; explicit symmetric ConstantPad1d): C01 covers them while no tap is pruned
+            # (ExportEquivalentSameOpen); the design config below shows that with a pruned tap a re-centred kernel reads
+            # other samples - the reason why the property restricts time pruning to causally padded layers
             R.design("MaskAlgebraMC", "MaskAlgebraMC_patterns_same", expect_ok=False)
-            for K in (2, 3, 4, 5, 7):
-                for cut in (0, 1, K - 1):
-                    for pm in ("zeros", "replicate"):
-                        arch = single_layer_arch(K, 1 + K % 2, k2=1)
-                        arch["nodes"][0].update({"causal": False, "pm": pm})
-                        scs.append({"arch": arch, "fold": False, "seed": K * 31 + cut, "alive": {"1": [1, 3]},
-                                    "tm": {"1": {"b": [0] * cut + [10] * (K - cut), "g": [10] * glen(K)}},
-                                    "props": _props(pid), "src": "same-padded"})
-        else:
-            # C08: every combination of fully-pruned vs open rf / dilation masks, K = 1..12 (the corners of the dump)
-            corners = [s for s in pat if True]
-            cs = []
-            for s in corners:
-                K = s["K"]
-                b = [s["b"][i] for i in range(K)] if isinstance(s["b"], dict) else list(s["b"])
-                g = [s["g"][i] for i in range(glen(K))] if isinstance(s["g"], dict) else list(s["g"])
-                full_b, none_b = all(v == 10 for v in b), all(v == 0 for v in b[:-1])
-                full_g, none_g = all(v == 10 for v in g), all(v == 0 for v in g[:-1])
-                if (full_b or none_b) and (full_g or none_g):
-                    cs.append(s)
-            scs += _pattern_scenarios(cs, pid, rng, d0s=(1, 2, 3))
-            # and the all-zero value assignment written raw (beta = gamma = alpha = 0 everywhere, incl. keep-alive slots)
-            for K in range(1, 13):
-                arch = single_layer_arch(K, 1 + K % 3)
-                scs.append({"arch": arch, "fold": False, "seed": K, "alpha": {"1": [0.0] * 3, "3": [0.0] * 2},
-                            "tmraw": {"1": {"beta": [0.0] * K, "gamma": [0.0] * glen(K)},
-                                      "3": {"beta": [0.0, 0.0], "gamma": [0.0]}},
-                            "props": _props(pid), "src": "all-zero"})
+            for K in (2, 3, 4, 5, 7, 9):
+                for lay in ("zeros", "replicate", "circular", "sym"):
+                    d0 = 1 + K % 2
+                    if lay == "sym" and ((K - 1) * d0) % 2:
+                        d0 = 2
+                    arch = single_layer_arch(K, d0, k2=1)
+                    arch["nodes"][0].update({"causal": False, "sym": True} if lay == "sym" else {"causal": False, "pm": lay})
+                    scs.append({"arch": arch, "fold": K % 2 == 0, "seed": K * 31, "alive": {"1": [1, 3]},
+                                "tm": {"1": {"b": [10] * K, "g": [10] * glen(K)}},
+                                "props": _props(pid), "src": "non-causal-open"})
     gcfg = "FeatGraphMC_quick" if (pid == "C09") else "FeatGraphMC_tiny"
     if pid == "C09" and not quick:
         R.design("FeatGraphMC", "FeatGraphMC_thorough", workers=16, timeout=7200)
